@@ -6,7 +6,9 @@ import (
 	"context"
 	"fmt"
 	"maps"
+	"net"
 	"strings"
+	"time"
 	"unsafe"
 
 	wire "github.com/jeroenrinzema/psql-wire"
@@ -273,4 +275,71 @@ func init() {
 		}
 		return nil
 	}
+}
+
+// c15FreeRun serves the scenario with the scheduler INACTIVE: real goroutines,
+// real blocking, the shims pass straight through. It is a cross-check of the
+// race monitor (a plain free-running -race pass over the same scenario
+// bodies), not a deciding step: its reports are counted separately.
+func c15FreeRun(spec c15Spec) (ok bool) {
+	memnet.Point = nil
+	defer func() { memnet.Point = vsched.Point }()
+	multi := &script.Multi{M: map[string]*script.Rec{}}
+	var conns []*memnet.SConn
+	for _, c := range spec.conns {
+		sc := memnet.NewSConn("mem:"+c.name, c.segs, true)
+		conns = append(conns, sc)
+		multi.M[sc.Remote.String()] = &script.Rec{Extra: c15Extra}
+	}
+	inner := multi.ParseFn()
+	parse := func(ctx context.Context, q string) (wire.PreparedStatements, error) {
+		switch q {
+		case "int4row":
+			return wire.Prepared(wire.NewStatement(func(ctx context.Context, w wire.DataWriter, p []wire.Parameter) error {
+				if err := w.Row([]any{int32(42)}); err != nil {
+					return err
+				}
+				return w.Complete("SELECT 1")
+			}, wire.WithColumns(wire.Columns{{Name: "n", Oid: oid.T_int4}}))), nil
+		case "whoami":
+			return wire.Prepared(wire.NewStatement(func(ctx context.Context, w wire.DataWriter, p []wire.Parameter) error {
+				cp, sp := wire.ClientParameters(ctx), wire.ServerParameters(ctx)
+				if err := w.Row([]any{string(cp["user"]), cp["application_name"], sp["session_authorization"], wire.AuthenticatedUsername(ctx), fmt.Sprint(len(sp))}); err != nil {
+					return err
+				}
+				return w.Complete("SELECT 1")
+			}, wire.WithColumns(script.TextColumns(5)))), nil
+		}
+		return inner(ctx, q)
+	}
+	var global wire.Parameters
+	if spec.global != nil {
+		global = maps.Clone(spec.global)
+	}
+	srv, err := wire.NewServer(parse, wire.Logger(harness.Quiet), wire.MessageBufferSize(1<<12), wire.GlobalParameters(global))
+	if err != nil {
+		return false
+	}
+	cs := make([]net.Conn, len(conns))
+	for i, c := range conns {
+		cs[i] = c
+	}
+	l := memnet.NewSListener(cs...)
+	done := make(chan error, 1)
+	go func() { done <- srv.Serve(l) }()
+	deadline := time.Now().Add(20 * time.Second)
+	for {
+		all := true
+		for _, c := range conns {
+			if !c.IsClosedSync() {
+				all = false
+			}
+		}
+		if all || time.Now().After(deadline) {
+			break
+		}
+		time.Sleep(20 * time.Microsecond)
+	}
+	srv.Close()
+	return <-done == nil
 }
